@@ -66,6 +66,11 @@ ASSUMPTIONS = [
     'before-snapshot is taken after that flush.',
     'Orphans and new/removed atoms are derived from the harness ASTs, never '
     'from cylc\'s parsed config; pre-initial atoms are not judged.',
+    'A run that the engine aborts because the scheduler waits for ever '
+    'inside one call (seen: a reload waiting for a task left `preparing` '
+    'by the trigger-then-reload defect described in '
+    'findings/C25_triggered_task_reprepared_from_stale_proxy_after_reload.py) '
+    'is counted inconclusive and not judged.',
 ]
 
 CMD_OPS = ['hold', 'release', 'trigger', 'set', 'pause', 'resume']
